@@ -1,8 +1,9 @@
 ------------------------------ MODULE EditGen ------------------------------
 (***************************************************************************)
 (* The mutation neighbourhood of a set of seed texts (C03, C02, C11):      *)
-(* every proper prefix and every single-position edit (delete, insert a    *)
-(* character class, replace by a character class) of every seed.  Seeds    *)
+(* every proper prefix and every single-position edit (delete, insert,     *)
+(* replace by an element of Repl, duplicate, swap with the next position)  *)
+(* of every seed.  Positions are characters (C03) or tokens (C02).  Seeds  *)
 (* are known to the specification only by their length; the harness        *)
 (* applies the edit to the concrete text.  One behaviour = one edit.       *)
 (***************************************************************************)
@@ -19,6 +20,8 @@ Pick ==
        \/ o = "del" /\ \E p \in 1..SeedLens[s] : e' = [op |-> o, seed |-> s, pos |-> p, cls |-> ""]
        \/ o = "ins" /\ \E p \in 0..SeedLens[s] : \E c \in Repl : e' = [op |-> o, seed |-> s, pos |-> p, cls |-> c]
        \/ o = "rep" /\ \E p \in 1..SeedLens[s] : \E c \in Repl : e' = [op |-> o, seed |-> s, pos |-> p, cls |-> c]
+       \/ o = "dup" /\ \E p \in 1..SeedLens[s] : e' = [op |-> o, seed |-> s, pos |-> p, cls |-> ""]
+       \/ o = "swap" /\ \E p \in 1..(SeedLens[s] - 1) : e' = [op |-> o, seed |-> s, pos |-> p, cls |-> ""]
 Next == Pick
 Export == e.op # "none" => CSVWrite("%1$s", <<ToJson(e)>>, IOEnv.OUT)
 =============================================================================
